@@ -152,6 +152,14 @@ def generate(seed, tier):
             ops.append(["single", round(rw.uniform(0, 0.5), 5), rw.randrange(1, min(N, 40 if sim else N) + 1)])
         else:
             ops.append(["construct2"])
+    # the faults may also arrive *during* the history: the caller's buffer is analysed while still clean, then the
+    # non-finite samples are written into the same buffer in place, and it is analysed again
+    if faults and not huge and rw.random() < 0.3 and layout not in ("1d_readonly", "2xN_readonly", "1d_list", "list_lists"):
+        k = rw.randrange(1, len(ops) + 1)
+        ops.insert(k, ["inject"])
+        if not any(o[0] in ("construct", "construct2") for o in ops[k + 1:]):
+            ops.insert(k + 1, ["construct2"])
+            ops.append(["compute"])
     if amp_band:
         dtype = "f8" if dtype not in ("f8", ">f8", "longdouble") else dtype
     if huge:
@@ -171,7 +179,7 @@ def _base(sc):
     return SC.make_record(sc["data"])
 
 
-def materialise(sc):
+def materialise(sc, with_faults=True):
     """Returns (object handed to the analyzer, list of underlying buffers to monitor, logical float64 (2,N)|(N,) with faults as given)."""
     base = _base(sc)                       # float64, finite
     dt = _np_dtype(sc["dtype"])
@@ -183,7 +191,7 @@ def materialise(sc):
         vals = base
     typed = np.asarray(vals).astype(dt)    # C-contiguous, (2,N) or (N,)
     # inject faults into the typed values
-    if sc["faults"] and dt.kind == "f":
+    if sc["faults"] and dt.kind == "f" and with_faults:
         for ch, i, kind in sc["faults"]:
             tgt = typed if typed.ndim == 1 else typed[ch]
             if kind == "nan":
@@ -274,8 +282,9 @@ def _snapshot(bufs):
 def execute(sc, out):
     cfg = sc["cfg"]
     world = sc["world"]["world"]
+    late = any(o[0] == "inject" for o in sc["ops"])
     try:
-        obj, bufs, logical = materialise(sc)
+        obj, bufs, logical = materialise(sc, with_faults=not late)
     except Exception as e:  # harness-side layout problem: never a violation
         out.discarded = "layout_unavailable"
         out.extra["discard_reason"] = f"{type(e).__name__}: {e}"[:200]
@@ -343,6 +352,35 @@ def execute(sc, out):
             out.sim_steps += 1
             try:
                 with clock.installed():
+                    if kind == "inject":
+                        # the caller writes the non-finite samples into the SAME buffer, in place, after it was analysed clean
+                        for ch, i, fk in sc["faults"]:
+                            val = {"nan": np.nan, "pinf": np.inf, "ninf": -np.inf}.get(fk, np.nan)
+                            if isinstance(obj, (list, tuple)):
+                                obj[ch][i] = val
+                            elif obj.ndim == 1:
+                                obj[i] = val
+                            elif obj.shape[0] == 2 and sc["layout"] not in ("Nx2", "Nx2_view"):
+                                obj[ch, i] = val
+                            else:
+                                obj[i, ch] = val
+                        if isinstance(obj, (list, tuple)):
+                            logical = np.array([np.asarray(o_, dtype=np.float64) for o_ in obj])
+                        else:
+                            logical = np.array(obj, dtype=np.float64)
+                            if logical.ndim == 2 and sc["layout"] in ("Nx2", "Nx2_view"):
+                                logical = np.ascontiguousarray(logical.T)
+                        canon = np.ascontiguousarray(np.where(np.isfinite(logical), logical, 0.0), dtype=np.float64)
+                        nfault = int(np.size(logical) - np.count_nonzero(np.isfinite(logical)))
+                        snap0[:] = _snapshot(bufs)
+                        with sess.serial(), plain.installed():
+                            can_res = SC.build_analyzer(canon.copy(), cfg).compute()
+                            can_raw = SS.raw_fields(can_res)
+                        out.count("data_fault_injected_mid_history")
+                        if nfault:
+                            out.nontrivial = True
+                        ans = []            # analyzers built on the clean content describe the old content
+                        continue
                     if kind in ("construct", "construct2"):
                         ans.append(SC.build_analyzer(obj, cfg))
                         where = "after constructing the analyzer"
